@@ -9,7 +9,7 @@ func init() {
 			return Profile{Name: "c02-hostile", MinTx: 2, MaxTx: 7, Hostile: 0.25, VoteFault: 0.08, GapBig: 0.08, Gov: true, GovHalt: true}
 		},
 		Monitors:         func(st *Stats) []Monitor { return []Monitor{NewPhaseStats(st)} },
-		Cases:            tierMap(16, 128),
+		Cases:            tierMap(48, 160),
 		Blocks:           tierMap(200, 600),
 		DeathIsViolation: true,
 	})
@@ -24,7 +24,7 @@ func init() {
 					"withdrawFeeRefund": 4, "withdrawTip": 5, "createValidator": 1, "privileged": 0.1, "registerSpec": 0.1, "requestAttest": 0.2, "withdrawTokens": 0.3, "claimDeposits": 0.1}}
 		},
 		Monitors: func(st *Stats) []Monitor { return []Monitor{NewC05Monitor(st)} },
-		Cases:    tierMap(12, 96),
+		Cases:    tierMap(32, 128),
 		Blocks:   tierMap(250, 600),
 	})
 }
@@ -38,7 +38,7 @@ func init() {
 				Fragments: []string{"mintInit"}}
 		},
 		Monitors: func(st *Stats) []Monitor { return []Monitor{NewC03Monitor(st)} },
-		Cases:    tierMap(24, 128),
+		Cases:    tierMap(48, 160),
 		Blocks:   tierMap(300, 600),
 	})
 	Register(&PropDef{
@@ -50,7 +50,7 @@ func init() {
 				Fragments: []string{"mintInit"}}
 		},
 		Monitors: func(st *Stats) []Monitor { return []Monitor{NewC04Monitor(st)} },
-		Cases:    tierMap(24, 128),
+		Cases:    tierMap(48, 160),
 		Blocks:   tierMap(300, 600),
 	})
 }
@@ -77,7 +77,7 @@ func init() {
 			ID:       id,
 			Profile:  func(tier string, r *Rng) Profile { return disputeProfile("dispute-" + id) },
 			Monitors: func(st *Stats) []Monitor { return []Monitor{NewDisputeMonitor(st)} },
-			Cases:    tierMap(24, 128),
+			Cases:    tierMap(48, 160),
 			Blocks:   tierMap(300, 600),
 			Finish:   disputeFinish,
 			// a tally / execution / expiry step that fails in BeginBlock did not follow the lifecycle
@@ -99,9 +99,9 @@ func init() {
 		}
 		return p
 	},
-		Monitors: func(st *Stats) []Monitor { return []Monitor{NewC07Monitor(st)} }, Cases: tierMap(24, 128), Blocks: tierMap(300, 800), DeathModules: []string{"oracle"}})
+		Monitors: func(st *Stats) []Monitor { return []Monitor{NewC07Monitor(st)} }, Cases: tierMap(48, 160), Blocks: tierMap(300, 800), DeathModules: []string{"oracle"}})
 	Register(&PropDef{ID: "C08", Profile: func(tier string, r *Rng) Profile { return oracleProfile("c08-history") },
-		Monitors: func(st *Stats) []Monitor { return []Monitor{NewC08Monitor(st)} }, Cases: tierMap(20, 96), Blocks: tierMap(300, 800)})
+		Monitors: func(st *Stats) []Monitor { return []Monitor{NewC08Monitor(st)} }, Cases: tierMap(40, 128), Blocks: tierMap(300, 800)})
 }
 
 func init() {
@@ -116,14 +116,14 @@ func init() {
 			cfg.NumVals = 5
 			cfg.ExtraVals = 3
 		},
-		Monitors: func(st *Stats) []Monitor { return []Monitor{NewC10Monitor(st)} }, Cases: tierMap(24, 128), Blocks: tierMap(300, 800)})
+		Monitors: func(st *Stats) []Monitor { return []Monitor{NewC10Monitor(st)} }, Cases: tierMap(48, 160), Blocks: tierMap(300, 800)})
 	Register(&PropDef{ID: "C14",
 		Profile: func(tier string, r *Rng) Profile {
 			return Profile{Name: "c14-bridge", MinTx: 2, MaxTx: 6, Hostile: 0.2, VoteFault: 0.0, GapBig: 0.05, Gov: false,
 				W:         map[string]float64{"withdrawTokens": 10, "claimDeposits": 8, "submit": 14, "tip": 5, "proposeDispute": 3, "addEvidence": 1, "vote": 2, "undelegate": 0.5, "redelegate": 0.5, "delegate": 2},
 				Fragments: []string{"deposit1", "deposit2", "deposit3"}}
 		},
-		Monitors: func(st *Stats) []Monitor { return []Monitor{NewC14Monitor(st)} }, Cases: tierMap(12, 64), Blocks: tierMap(160, 400)})
+		Monitors: func(st *Stats) []Monitor { return []Monitor{NewC14Monitor(st)} }, Cases: tierMap(32, 96), Blocks: tierMap(160, 400)})
 }
 
 func init() {
@@ -139,9 +139,9 @@ func init() {
 		cfg.ValStake = [][]int64{{5000, 3000, 2000, 2000, 1000, 1000}, {1000, 1000, 1000, 1000, 1000, 1000}, {900, 300, 200, 100, 50, 20}, {2, 2, 1, 1, 1, 1}}[r.Pick(4)]
 	}
 	Register(&PropDef{ID: "C16", Profile: func(tier string, r *Rng) Profile { return bridgeProfile("c16-valset") }, World: world,
-		Monitors: func(st *Stats) []Monitor { return []Monitor{NewC16Monitor(st)} }, Cases: tierMap(20, 96), Blocks: tierMap(300, 800)})
+		Monitors: func(st *Stats) []Monitor { return []Monitor{NewC16Monitor(st)} }, Cases: tierMap(40, 128), Blocks: tierMap(300, 800)})
 	Register(&PropDef{ID: "C17", Profile: func(tier string, r *Rng) Profile { return bridgeProfile("c17-proposals") }, World: world,
-		Monitors: func(st *Stats) []Monitor { return []Monitor{NewC17Monitor(st)} }, Cases: tierMap(16, 64), Blocks: tierMap(250, 600),
+		Monitors: func(st *Stats) []Monitor { return []Monitor{NewC17Monitor(st)} }, Cases: tierMap(32, 96), Blocks: tierMap(250, 600),
 		Opts:   func() AppOpts { return AppOpts{PanicLog: &PanicLog{}} },
 		Setup:  func(c *Chain, st *Stats, r *Rng) { NewProposalLab(st, r, 6).Attach(c) },
 		Finish: func(c *Chain, g *Gen, mons []Monitor) { finalizeUndecodable(c) }})
@@ -153,13 +153,13 @@ func init() {
 			return Profile{Name: "c18-staking", MinTx: 3, MaxTx: 8, Hostile: 0.1, VoteFault: 0.02, GapBig: 0.12,
 				W: map[string]float64{"delegate": 16, "undelegate": 10, "redelegate": 6, "cancelUnbond": 3, "multiStake": 12, "createValidator": 2, "proposeDispute": 2, "vote": 1, "submit": 8, "tip": 3}}
 		},
-		Monitors: func(st *Stats) []Monitor { return []Monitor{NewC18ChainMonitor(st)} }, Cases: tierMap(12, 64), Blocks: tierMap(250, 600)})
+		Monitors: func(st *Stats) []Monitor { return []Monitor{NewC18ChainMonitor(st)} }, Cases: tierMap(32, 96), Blocks: tierMap(250, 600)})
 	Register(&PropDef{ID: "C09chain",
 		Profile: func(tier string, r *Rng) Profile {
 			return Profile{Name: "c09-tbr", MinTx: 3, MaxTx: 8, Hostile: 0.1, GapBig: 0.04, Gov: true, Fragments: []string{"mintInit"},
 				W: map[string]float64{"submit": 30, "tip": 12, "createReporter": 5, "selectReporter": 6, "delegate": 6, "govVote": 5, "govProposal": 0.6, "registerSpec": 1}}
 		},
-		Monitors: func(st *Stats) []Monitor { return []Monitor{NewC09ChainMonitor(st)} }, Cases: tierMap(12, 64), Blocks: tierMap(250, 600)})
+		Monitors: func(st *Stats) []Monitor { return []Monitor{NewC09ChainMonitor(st)} }, Cases: tierMap(32, 96), Blocks: tierMap(250, 600)})
 }
 
 func init() {
@@ -174,7 +174,7 @@ func init() {
 			cfg.NumVals = 4 + r.Pick(2)
 			cfg.MaxValidators = 6
 		},
-		Cases: tierMap(8, 48), Blocks: tierMap(150, 400)})
+		Cases: tierMap(16, 48), Blocks: tierMap(150, 400)})
 }
 
 func init() {
@@ -184,5 +184,5 @@ func init() {
 				W: map[string]float64{"privileged": 8, "updateTeam": 3, "registerSpec": 4, "removeSelector": 5, "withdrawFeeRefund": 5, "claimReward": 4, "withdrawTip": 5, "unjailReporter": 4,
 					"selectReporter": 5, "switchReporter": 4, "proposeDispute": 5, "addFee": 4, "vote": 6, "govProposal": 1.5, "govVote": 5, "send": 3, "delegate": 5, "undelegate": 3, "redelegate": 2}}
 		},
-		Monitors: func(st *Stats) []Monitor { return []Monitor{NewC19Monitor(st)} }, Cases: tierMap(24, 128), Blocks: tierMap(250, 600)})
+		Monitors: func(st *Stats) []Monitor { return []Monitor{NewC19Monitor(st)} }, Cases: tierMap(48, 160), Blocks: tierMap(250, 600)})
 }
